@@ -42,10 +42,14 @@ type Event struct {
 	Host  bool     // host function
 	Vals  []uint64 // params (B) or results (A), masked by type
 	Stack []string // B only: ids from the iterator, callee first
+	Extra int      // number of value slots handed to the listener beyond (or, negative, short of) the function's signature
 }
 
 func (e Event) String() string {
 	s := fmt.Sprintf("%c %s %x", e.Kind, e.ID, e.Vals)
+	if e.Extra != 0 {
+		s += fmt.Sprintf(" slots%+d", e.Extra)
+	}
 	if e.Kind == 'B' {
 		s += " stack=" + strings.Join(e.Stack, "<")
 	}
@@ -95,6 +99,17 @@ func mask(ts []api.ValueType, vs []uint64) []uint64 {
 	return out
 }
 
+func slots(ts []api.ValueType) int {
+	n := 0
+	for _, t := range ts {
+		n++
+		if t == 0x7b {
+			n++
+		}
+	}
+	return n
+}
+
 func (r *recorder) NewFunctionListener(def api.FunctionDefinition) experimental.FunctionListener {
 	i, _ := id(def)
 	if strings.HasSuffix(i, ".enter") {
@@ -114,7 +129,7 @@ func (r *recorder) add(e Event) {
 
 func (r *recorder) Before(ctx context.Context, mod api.Module, def api.FunctionDefinition, params []uint64, si experimental.StackIterator) {
 	i, host := id(def)
-	e := Event{Kind: 'B', ID: i, Host: host, Vals: mask(def.ParamTypes(), params)}
+	e := Event{Kind: 'B', ID: i, Host: host, Vals: mask(def.ParamTypes(), params), Extra: len(params) - slots(def.ParamTypes())}
 	for si.Next() {
 		d := si.Function().Definition()
 		fi, _ := id(d)
@@ -128,7 +143,7 @@ func (r *recorder) Before(ctx context.Context, mod api.Module, def api.FunctionD
 
 func (r *recorder) After(ctx context.Context, mod api.Module, def api.FunctionDefinition, results []uint64) {
 	i, host := id(def)
-	r.add(Event{Kind: 'A', ID: i, Host: host, Vals: mask(def.ResultTypes(), results)})
+	r.add(Event{Kind: 'A', ID: i, Host: host, Vals: mask(def.ResultTypes(), results), Extra: len(results) - slots(def.ResultTypes())})
 }
 
 func (r *recorder) Abort(ctx context.Context, mod api.Module, def api.FunctionDefinition, err error) {
